@@ -9,6 +9,7 @@ package c15
 import (
 	"time"
 
+	"verif/mc/checks/brig"
 	"verif/mc/engine"
 )
 
@@ -35,6 +36,8 @@ func init() {
 			{Name: "reentrant", Run: runReentrant},
 			{Name: "callargs", Run: runCallArgs},
 			{Name: "typeset", Run: runTypeset},
+			{Name: "slicelen", Run: runSliceLen},
+			{Name: "kindtwins", Run: func(r *engine.Run) { brig.RunKindTwins(r, false) }},
 		},
 		Assumptions: []string{
 			"ref/bridge is the reference: ES5 9.2/9.3.1/9.4/9.8.1 conversions, the natural JS counterpart of a Go value (nil and nil pointers are undefined, pointers transparent, numbers the nearest double, unexported fields absent)",
